@@ -201,3 +201,24 @@ def c26(tier):
                       "Encode/decode fidelity itself is outside what a state-machine specification adds (DESIGN 7).")
   run.sample({"event": recs[0]["ev"][0]})
   return run.finish()
+
+
+# ------------------------------------------------------------------ C32
+def c32(tier):
+  from harness import textdrive
+  run = common.Run("C32", tier, "other")
+  run.assumptions += ["chart, state and signal names are single-line; a single-line input has no trailing whitespace; a text without any record is not a trace",
+                      "timestamps have miros' format %Y-%m-%d %H:%M:%S.%f"]
+  res = textdrive.run(2 if tier == "quick" else 3, common.seed(), 200000)
+  for f in res["fails"]:
+    run.violation("stripped-" + f["kind"], "stripped() disagrees with the token-level definition: %s" % json.dumps(f)[:300], f)
+  run.add(evaluations=res["rendered"] + res["pairs"], distinct_nontrivial=res["rendered"], universe_texts=res["universe"], pairs_compared=res["pairs"],
+          states=max(1, res["tlc"].distinct), transitions=max(1, res["tlc"].generated),
+          explanation="TraceText.tla defines trace texts as token sequences, Norm, the elementary edits (timestamp, blank line, surrounding whitespace) and "
+                      "proves by evaluation over the universe of short texts that 'equal Norm' and 'related by edits' coincide (EditsPreserveNorm, CanonByEdits, "
+                      "CanonUnique). TLC exports the universe with Norm; every text is rendered with real record bodies printed by miros' trace() and real "
+                      "timestamps and fed to the real stripped(); results are compared with Norm and pairwise. A pure function: the specification contributes "
+                      "the definition of the equivalence and the enumeration, not state-space depth (DESIGN 7).")
+  for s in res["samples"]:
+    run.sample(s)
+  return run.finish()
